@@ -8,6 +8,7 @@ package main
 
 import (
 	"bytes"
+	"compress/gzip"
 	"context"
 	"encoding/json"
 	"fmt"
@@ -34,6 +35,7 @@ type absPkt struct {
 	K   string `json:"k"` // HB | CMD | PAY
 	Z   bool   `json:"z"`
 	Len int    `json:"len"` // abstract body length class
+	C   string `json:"c"`   // body content class ("any": picked here, seeded)
 }
 type absRead struct {
 	F string `json:"f"` // T | L | B
@@ -45,8 +47,9 @@ type absBeh struct {
 }
 type concPkt struct {
 	absPkt
-	Type byte `json:"type"` // concrete packet type code
-	Size int  `json:"size"` // concrete body size (payload bytes / CommandBody bytes)
+	Type    byte   `json:"type"`    // concrete packet type code
+	Size    int    `json:"size"`    // concrete body size (payload bytes / CommandBody bytes)
+	Content string `json:"content"` // concrete body content class (payload kinds)
 }
 type concBeh struct {
 	Transport string    `json:"transport"` // reader | ws-c2s | ws-s2c
@@ -69,8 +72,15 @@ func hashOf(b []byte) int64 {
 	return int64(h.Sum64() >> 1)
 }
 
+// body content classes of payload packets: what a tunnel may carry must come back identical whether or
+// not compression is on - all zeros, incompressible random bytes, random bytes behind a gzip magic
+// (1f 8b 08), a complete gzip stream (e.g. a .gz file), bytes that look like a packet header of this protocol.
+var contents = []string{"zeros", "random", "gzmagic", "gzstream", "hdrlike"}
+
 func concretise(a absBeh, r *rand.Rand, transport string) concBeh {
 	c := concBeh{Transport: transport, Reads: a.Reads, Map: []string{"prop", "head", "tail"}[r.Intn(3)], Salt: r.Int63()}
+	sameSize := r.Intn(2) == 0 // packets of one abstract length share one concrete size (same buffer-pool bucket)
+	chosen := map[int]int{}
 	for _, p := range a.Pkts {
 		cp := concPkt{absPkt: p}
 		switch p.K {
@@ -86,6 +96,16 @@ func concretise(a absBeh, r *rand.Rand, transport string) concBeh {
 			ss = sizes[3]
 		}
 		cp.Size = ss[r.Intn(len(ss))]
+		if v, ok := chosen[p.Len]; ok && sameSize {
+			cp.Size = v
+		}
+		chosen[p.Len] = cp.Size
+		if p.K == "PAY" && p.Len > 0 {
+			cp.Content = p.C
+			if cp.Content == "" || cp.Content == "any" {
+				cp.Content = contents[r.Intn(len(contents))]
+			}
+		}
 		c.Pkts = append(c.Pkts, cp)
 	}
 	return c
@@ -137,10 +157,57 @@ func build(p concPkt, r *rand.Rand) *packet.TransferPacket {
 			Token: "tok", SenderId: "s-1", ReceiverId: "r-2", CommandBody: text(r, p.Size)}
 	default:
 		if p.Size > 0 {
-			t.Payload = filler(r, p.Size, p.Z && p.Size > 1<<20)
+			t.Payload = body(r, p.Size, p.Content, p.Z)
 		}
 	}
 	return t
+}
+
+var hdrLike = [][]byte{{0x22, 0, 0, 0, 5}, {0x03}, {0x43, 0x03}, {0x62, 0, 0, 0, 0}, {0x10, 0, 0, 0, 2, '{', '}'}, {0x23, 0xff, 0xff, 0xff, 0xff}, {0x01, 0, 0x10, 0, 0}}
+
+// body builds n bytes of the given content class (best effort for tiny n: the prefix is cut).
+func body(r *rand.Rand, n int, class string, z bool) []byte {
+	switch class {
+	case "zeros":
+		return make([]byte, n)
+	case "gzmagic", "hdrlike":
+		b := make([]byte, n)
+		r.Read(b)
+		pre := []byte{0x1f, 0x8b, 0x08}
+		if class == "hdrlike" {
+			pre = hdrLike[r.Intn(len(hdrLike))]
+		}
+		copy(b, pre)
+		return b
+	case "gzstream": // a complete gzip member of exactly n bytes (stored blocks of random data; n >= 24), else its prefix
+		var buf bytes.Buffer
+		w, _ := gzip.NewWriterLevel(&buf, gzip.NoCompression)
+		if n >= 24 {
+			in := make([]byte, n)
+			r.Read(in)
+			lo, hi := 0, n // largest input whose stored encoding fits into n bytes
+			for lo < hi {
+				mid := (lo + hi + 1) / 2
+				if 18+mid+5*(mid/65535+1) <= n {
+					lo = mid
+				} else {
+					hi = mid - 1
+				}
+			}
+			w.Write(in[:lo])
+		}
+		w.Close()
+		b := buf.Bytes()
+		if len(b) < n { // a few bytes short of n: trailing padding after the member
+			b = append(b, make([]byte, n-len(b))...)
+		}
+		return b[:n]
+	case "random":
+		b := make([]byte, n)
+		r.Read(b)
+		return b
+	}
+	return filler(r, n, z && n > 1<<20) // no class given (driver-made size cases)
 }
 
 func sizeClass(n int) string {
@@ -491,6 +558,12 @@ func drive(env *fw.Env, b fw.Behaviour) *fw.Trace {
 		n, err := wsp.WritePacket(orig[i], p.Z, 0)
 		wrote := wire.Len() - before
 		cls := fmt.Sprintf("len=%s:%s:z=%v", sizeClass(p.Size), p.K, p.Z)
+		if p.Content != "" {
+			cls += ":c=" + p.Content
+		}
+		if p.Type == byte(packet.TunnelData) {
+			cls += ":TunnelData"
+		}
 		t.Events = append(t.Events, fw.Event{"ev": "Write", "i": i + 1, "ok": err == nil, "cls": cls, "cut": cutClass(pp[i]),
 			"base": int(p.Type & 0x3F), "len": p.Size, "n": n, "wrote": wrote, "type": int(p.Type)})
 		if err != nil {
@@ -552,6 +625,14 @@ func drive(env *fw.Env, b fw.Behaviour) *fw.Trace {
 			}
 		}()
 		idx := 0
+		var held []*packet.TransferPacket // every decoded packet stays with the caller until the whole sequence is read
+		same := func(o, pkt *packet.TransferPacket) bool {
+			if o.CommandPacket != nil {
+				return pkt.CommandPacket != nil && reflect.DeepEqual(*o.CommandPacket, *pkt.CommandPacket) && len(pkt.Payload) == 0
+			}
+			return pkt.CommandPacket == nil && bytes.Equal(o.Payload, pkt.Payload)
+		}
+		var endEv fw.Event
 		for k := 0; k < len(beh.Pkts)+3; k++ {
 			before := cnt.n
 			pkt, ret, err := rsp.ReadPacket()
@@ -562,9 +643,9 @@ func drive(env *fw.Env, b fw.Behaviour) *fw.Trace {
 					if exact && beh.Transport == "reader" { // binding information (never judged): Read calls made vs. the model's reader
 						ev["calls"], ev["modelCalls"] = cnt.calls, len(beh.Reads)+1
 					}
-					evs = append(evs, ev)
+					endEv = ev
 				} else {
-					evs = append(evs, fw.Event{"ev": "Err", "kind": "error", "msg": err.Error(), "consumed": consumed, "at": before})
+					endEv = fw.Event{"ev": "Err", "kind": "error", "msg": err.Error(), "consumed": consumed, "at": before}
 				}
 				break
 			}
@@ -574,18 +655,17 @@ func drive(env *fw.Env, b fw.Behaviour) *fw.Trace {
 			} else {
 				ev["len"] = len(pkt.Payload)
 			}
-			eq := false
-			if idx < len(orig) {
-				o := orig[idx]
-				if o.CommandPacket != nil {
-					eq = pkt.CommandPacket != nil && reflect.DeepEqual(*o.CommandPacket, *pkt.CommandPacket) && len(pkt.Payload) == 0
-				} else {
-					eq = pkt.CommandPacket == nil && bytes.Equal(o.Payload, pkt.Payload)
-				}
-			}
-			ev["eq"] = eq
+			ev["eq"] = idx < len(orig) && same(orig[idx], pkt)
 			evs = append(evs, ev)
+			held = append(held, pkt)
 			idx++
+		}
+		// the sequence has been read: every packet handed out earlier must still be what was written
+		for i, pkt := range held {
+			evs = append(evs, fw.Event{"ev": "Held", "i": i + 1, "eq": i < len(orig) && same(orig[i], pkt)})
+		}
+		if endEv != nil {
+			evs = append(evs, endEv)
 		}
 		done <- result{evs}
 	}()
@@ -610,7 +690,14 @@ func drive(env *fw.Env, b fw.Behaviour) *fw.Trace {
 // ---- wiring ------------------------------------------------------------------------------
 
 func subst(pk, ln, st int) map[string]string {
-	return map[string]string{"PKTS": fmt.Sprint(pk), "LEN": fmt.Sprint(ln), "STALL": fmt.Sprint(st)}
+	return map[string]string{"PKTS": fmt.Sprint(pk), "LEN": fmt.Sprint(ln), "STALL": fmt.Sprint(st), "CONTENTS": `{"any"}`, "CHUNK": "all"}
+}
+
+// substContent: the content-class dimension in the model, chunking fixed to "everything asked for"
+func substContent(pk, ln int) map[string]string {
+	m := subst(pk, ln, 0)
+	m["CONTENTS"], m["CHUNK"] = `{"zeros", "random", "gzmagic", "gzstream", "hdrlike"}`, "max"
+	return m
 }
 
 func extra(env *fw.Env) []json.RawMessage {
@@ -628,6 +715,38 @@ func extra(env *fw.Env) []json.RawMessage {
 		mk("reader", false, byte(packet.TunnelData), maxBody, whole, env.Seed+1),
 		mk("reader", true, byte(packet.TunnelData), maxBody, wholeZ, env.Seed+2),
 		mk("reader", false, byte(packet.TunnelData), maxBody-1, cut, env.Seed+3),
+	}
+	// same pool bucket / raw payload path: three uncompressed TunnelData packets of one size, then a heartbeat;
+	// and every content class x compression x size as a two-packet sequence (whatever the sampling drew)
+	one := func(n int) []absRead { return []absRead{{"T", 1}, {"L", 4}, {"B", n}} }
+	salt := env.Seed * 7919
+	for _, size := range []int{1, 100, 4096, 5000, 32768, 70001} {
+		salt++
+		b := concBeh{Transport: "reader", Map: "prop", Salt: salt}
+		for i := 0; i < 3; i++ {
+			b.Pkts = append(b.Pkts, concPkt{absPkt: absPkt{K: "PAY", Len: 2}, Type: byte(packet.TunnelData), Size: size, Content: contents[(i+size)%len(contents)]})
+			b.Reads = append(b.Reads, one(2)...)
+		}
+		b.Pkts = append(b.Pkts, concPkt{absPkt: absPkt{K: "HB"}, Type: byte(packet.Heartbeat)})
+		b.Reads = append(b.Reads, absRead{"T", 1})
+		out = append(out, fw.MustJSON(b))
+	}
+	for _, c := range contents {
+		for _, z := range []bool{false, true} {
+			for _, size := range []int{3, 40, 300, 4096, 40000} {
+				salt++
+				b := concBeh{Transport: "reader", Map: "prop", Salt: salt}
+				nb := 2
+				if z {
+					nb = 3
+				}
+				for i := 0; i < 2; i++ {
+					b.Pkts = append(b.Pkts, concPkt{absPkt: absPkt{K: "PAY", Z: z, Len: 2}, Type: byte(packet.TunnelData), Size: size, Content: c})
+					b.Reads = append(b.Reads, one(nb)...)
+				}
+				out = append(out, fw.MustJSON(b))
+			}
+		}
 	}
 	if env.Tier == "thorough" {
 		out = append(out,
@@ -656,13 +775,18 @@ func selfTest(env *fw.Env, acc []*fw.Trace) []*fw.Trace {
 	}
 	picked := 0
 	for _, t := range acc {
-		last := -1
+		last, end, heldAt := -1, -1, -1
 		for i, e := range t.Events {
-			if e["ev"] == "Packet" {
+			switch e["ev"] {
+			case "Packet":
 				last = i
+			case "Eof":
+				end = i
+			case "Held":
+				heldAt = i
 			}
 		}
-		if last < 0 || picked >= 6 {
+		if last < 0 || end < 0 || heldAt < 0 || picked >= 6 {
 			continue
 		}
 		picked++
@@ -679,10 +803,16 @@ func selfTest(env *fw.Env, acc []*fw.Trace) []*fw.Trace {
 		c.Events = append(c.Events[:last], c.Events[last+1:]...)
 		out = append(out, c)
 		c = clone(t) // the reader failed at the end instead of reporting end of stream
-		c.Events[len(c.Events)-1] = fw.Event{"ev": "Err", "kind": "error", "msg": "injected", "consumed": 0}
+		c.Events[end] = fw.Event{"ev": "Err", "kind": "error", "msg": "injected", "consumed": 0}
 		out = append(out, c)
 		c = clone(t) // no end report at all
-		c.Events = c.Events[:len(c.Events)-1]
+		c.Events = append(c.Events[:end], c.Events[end+1:]...)
+		out = append(out, c)
+		c = clone(t) // a packet handed out earlier changed while later packets were read
+		c.Events[heldAt]["eq"] = false
+		out = append(out, c)
+		c = clone(t) // a held-packet report is missing
+		c.Events = append(c.Events[:heldAt], c.Events[heldAt+1:]...)
 		out = append(out, c)
 	}
 	return out
@@ -696,7 +826,12 @@ func postDrive(env *fw.Env, traces []*fw.Trace) error {
 		if t.Status != fw.Realised || len(t.Events) == 0 {
 			continue
 		}
-		last := t.Events[len(t.Events)-1]
+		var last fw.Event
+		for _, e := range t.Events {
+			if e["ev"] == "Eof" {
+				last = e
+			}
+		}
 		mc, ok := last["modelCalls"].(int)
 		if !ok {
 			continue
@@ -729,6 +864,7 @@ func main() {
 			jobs := []fw.TLCJob{
 				{Name: "gen:2x1", Module: "Framing", Cfg: "Framing_gen.cfg", Consts: subst(2, 1, 0), Workers: 8},
 				{Name: "gen:1x3+stall", Module: "Framing", Cfg: "Framing_gen.cfg", Consts: subst(1, 3, 1), Workers: 8},
+				{Name: "gen:content2x1", Module: "Framing", Cfg: "Framing_gen.cfg", Consts: substContent(2, 1), Workers: 4},
 				{Name: "sim:3x3+stall", Module: "Framing", Cfg: "Framing_gen.cfg", Consts: subst(3, 3, 1), Workers: 4,
 					Simulate: "num=300", Depth: 80, Seed: env.Seed},
 			}
@@ -744,7 +880,7 @@ func main() {
 			if env.Tier == "thorough" {
 				return 60000
 			}
-			return 4000
+			return 6000
 		},
 		Expand: func(env *fw.Env, src string, raw json.RawMessage) []json.RawMessage {
 			var a absBeh
